@@ -35,28 +35,48 @@ def handleFrames (j : Json) : R Json := do
   let n := getNatD j "n"
   pure <| Json.mkObj [("out", Json.arr ((recvFrames jsonComplete n [] stream plan).map outJ).toArray)]
 
-open LimeModel.ReadLimit in
+open LimeModel.ReadLimit
+def kindOf (s : String) : DocKind :=
+  match s with
+  | "type-error" | "bad-mediatype" => .refusedByDecode
+  | "no-kind" => .refusedByConvert
+  | _ => .envelope
+
+/-- `rlimit`: the receives of one connection. The budget is a field of the connection, renewed by the
+policy the source has on this run (`ReadLimit.policy`), or by `"policy"` when given. -/
 def handleRlimit (j : Json) : R Json := do
   let L := getNatD j "L"
   let frames ← parseNats (← getArr j "frames")
+  let kinds : List DocKind := match j.getObjVal? "kinds" with
+    | .ok (.arr a) => a.toList.map (fun x => match x with | .str s => kindOf s | _ => .envelope)
+    | _ => []
+  let pol : Policy := match getStrD j "policy" "" with
+    | "onValue" => .onValue
+    | "onDecodeOk" => .onDecodeOk
+    | "onEnvelope" => .onEnvelope
+    | _ => policy
   let recvs ← (← getArr j "reads").toList.mapM (fun r => do parseNats (← asArr r))
-  let mut s : RS := { buf := 0, avail := getNatD j "avail" }
+  let mut c : Conn := { rs := { buf := 0, avail := getNatD j "avail" }, N := L }
   let mut out : Array Json := #[]
   let mut fs := frames
+  let mut ks := kinds
   for reads in recvs do
     match fs with
     | [] =>
       -- no further frame on the stream: the decoder waits for a value that never completes
-      let r := recv L (s.buf + s.avail + 1) s reads
+      let r := recvLoop (c.rs.buf + c.rs.avail + 1) (c.rs.buf + c.rs.avail + 2) c.rs c.N reads 0
       out := out.push (Json.mkObj [("ok", .bool false), ("consumed", natJ r.consumed)])
       break
     | f :: rest =>
-      match recv L f s reads with
-      | .ok s' c =>
-        out := out.push (Json.mkObj [("ok", .bool true), ("consumed", natJ c), ("buf", natJ s'.buf), ("avail", natJ s'.avail)])
-        s := s'; fs := rest
-      | .err c =>
-        out := out.push (Json.mkObj [("ok", .bool false), ("consumed", natJ c)])
+      let k := ks.headD .envelope
+      let before := c
+      let (ok, c') := recvC pol L f k c reads
+      let consumed := match recvLoop f (f + 1) before.rs before.N reads 0 with | .ok _ u => u | .err u => u
+      if ok then
+        out := out.push (Json.mkObj [("ok", .bool true), ("consumed", natJ consumed), ("buf", natJ c'.rs.buf), ("avail", natJ c'.rs.avail)])
+        c := c'; fs := rest; ks := ks.tail
+      else
+        out := out.push (Json.mkObj [("ok", .bool false), ("consumed", natJ consumed)])
         break
   pure <| Json.mkObj [("out", Json.arr out)]
 
